@@ -599,7 +599,10 @@ def mask_unmodelled(impl, model, ops=None):
                 a = ma.group(1) + " ".join(ra) + ma.group(3)
                 b = mb.group(1) + " ".join(rb) + mb.group(3)
         if stop:
-            return oi + [a], om + [b]
+            # the model does not predict what a successful unmodelled transaction adds to this block's delivery / notification
+            # sets either: of this last line only the receipts are compared
+            cut = lambda x: re.sub(r"^(h=\d+ rc=\[.*?\]).*$", r"\1", x)
+            return oi + [cut(a)], om + [cut(b)]
         oi.append(a)
         om.append(b)
     return oi + list(impl[len(oi):]), om + list(model[len(om):])
